@@ -272,6 +272,13 @@ func c10Program(r *fw.R, d c10Desc) {
 			r.Count("ops_with_context_cancelled_after_return", 1)
 			r.Key("program/%s/%s/ping/%s", d.Role, paramsKey(d.Params), op.Cancel)
 		}
+		if opErr != nil && op.Cancel == "deadline-after-return" && ctx.Err() != nil {
+			// the operation itself outlasted its 400 ms deadline (slow machine): closing the connection is then
+			// what the library documents; nothing to judge
+			r.Count("ops_that_outlasted_their_own_deadline", 1)
+			cancel()
+			return
+		}
 		if opErr != nil {
 			r.Violate("C10/op-failed-after-earlier-cancellations/"+op.Kind, fmt.Sprintf("%s: failed with: %v (every context cancelled so far belonged to a call that had already returned successfully; %v into the op)", what(i, op), opErr, time.Since(t0).Round(time.Millisecond)), "")
 			cancel()
@@ -410,6 +417,15 @@ func c10Blocked(r *fw.R, d c10Desc) {
 		ctx, cancel = context.WithCancel(base)
 	}
 	defer cancel()
+	// a failure while preparing the scenario is a violation - unless the 150 ms deadline has passed
+	// meanwhile (slow machine), in which case there is nothing to judge
+	setupFailed := func(msg string) {
+		if d.How == "deadline" && ctx.Err() != nil {
+			r.Count("deadlines_that_passed_before_the_call_blocked", 1)
+			return
+		}
+		r.Violate("C10/setup-failed", what+": "+msg, "")
+	}
 	res := make(chan error, 1)
 	var w io.WriteCloser
 	big := genPayload(rng, 200000, 1, nil) // incompressible, larger than the peer's window
@@ -419,13 +435,13 @@ func c10Blocked(r *fw.R, d c10Desc) {
 		ectx, ec := context.WithCancel(base)
 		if blocksOnWrite || d.Blocked == "ping" {
 			if err := c.Write(ectx, websocket.MessageText, []byte("earlier")); err != nil {
-				r.Violate("C10/setup-failed", what+": "+err.Error(), "")
+				setupFailed(err.Error())
 				return
 			}
 		} else {
 			peer.Send(wire.Data(wire.OpText, true, []byte("earlier")))
 			if _, _, err := c.Read(ectx); err != nil {
-				r.Violate("C10/setup-failed", what+": "+err.Error(), "")
+				setupFailed(err.Error())
 				return
 			}
 		}
@@ -441,7 +457,7 @@ func c10Blocked(r *fw.R, d c10Desc) {
 		peer.Send(wire.Data(wire.OpBinary, false, []byte("first fragment")))
 		_, rd, err := c.Reader(ctx)
 		if err != nil {
-			r.Violate("C10/setup-failed", what+": "+err.Error(), "")
+			setupFailed(err.Error())
 			return
 		}
 		go func() {
@@ -478,7 +494,7 @@ func c10Blocked(r *fw.R, d c10Desc) {
 		if d.Blocked == "reader-read-partial-frame" {
 			_, rd, err := c.Reader(ctx)
 			if err != nil {
-				r.Violate("C10/setup-failed", what+": "+err.Error(), "")
+				setupFailed(err.Error())
 				return
 			}
 			go func() { _, err := io.ReadAll(rd); res <- err }()
@@ -496,7 +512,7 @@ func c10Blocked(r *fw.R, d c10Desc) {
 			_, err = w.Write(big[:1000])
 		}
 		if err != nil {
-			r.Violate("C10/setup-failed", what+": "+err.Error(), "")
+			setupFailed(err.Error())
 			return
 		}
 		if d.Pre == "ping-interleaved" {
@@ -504,7 +520,7 @@ func c10Blocked(r *fw.R, d c10Desc) {
 			perr := c.Ping(pctx)
 			pc()
 			if perr != nil {
-				r.Violate("C10/setup-failed", what+": interleaved ping: "+perr.Error(), "")
+				setupFailed("interleaved ping: " + perr.Error())
 				return
 			}
 		}
@@ -543,7 +559,7 @@ func c10Blocked(r *fw.R, d c10Desc) {
 		var err error
 		w, err = c.Writer(ctx, websocket.MessageBinary)
 		if err != nil {
-			r.Violate("C10/setup-failed", what+": "+err.Error(), "")
+			setupFailed(err.Error())
 			return
 		}
 		close(stopReading)
@@ -556,7 +572,9 @@ func c10Blocked(r *fw.R, d c10Desc) {
 	select {
 	case err := <-res:
 		if d.How == "deadline" && err != nil {
-			break
+			// the deadline passed before the call had blocked (slow machine): nothing to judge
+			r.Count("deadlines_that_passed_before_the_call_blocked", 1)
+			return
 		}
 		if d.Blocked == "writer-first-write-fills-buffer" && err == nil {
 			// frame and header fitted into the write buffer: nothing blocked, nothing to judge
